@@ -243,4 +243,22 @@ def checkKernels (fm : Fm) (ek : Nat) (u : UnitType) (k : UnitKernels) : Bool :=
       | _, _ => false
     allIdx k.toStd (one true) && allIdx k.fromStd (one false)
 
+/-! ### C20: every unchecked table lookup hits -/
+
+/-- For one unit type: every declared enumerator is a key of the abbreviation table
+(`Abbreviation(e)`: `find(e)->second`, Base.hpp:90) and of both conversion dispatch tables in all
+three numeric types (`find(unit)->second(...)`, Unit.hpp:132-138), and every unit system is a key of
+the consistent-unit table (`ConsistentUnits<U>.at(system)`, UnitSystem.hpp:226). -/
+def checkLookupsHit (systems : List Nat) (u : UnitType) : Bool :=
+  u.values.all (fun v => (lookup v u.abbreviations).isSome) &&
+  u.values.all (fun v => u.mapTo32.contains v && u.mapFrom32.contains v && u.mapTo64.contains v &&
+    u.mapFrom64.contains v && u.mapTo80.contains v && u.mapFrom80.contains v) &&
+  systems.all (fun s => (lookup s u.consistent).isSome) &&
+  u.values.contains u.standard
+
+/-- For the other enumerations (`UnitSystem`, `ConstitutiveModel::Type`): every enumerator has an
+abbreviation. -/
+def checkAbbreviationsHit (u : UnitType) : Bool :=
+  u.values.all (fun v => (lookup v u.abbreviations).isSome)
+
 end PhQVerif
